@@ -161,6 +161,24 @@ func gen(r *harn.Rng, tier string) interface{} {
 		// reads on an empty buffer are skipped by the executor
 		return sc
 	}
+	if r.Bool(0.04) {
+		// occupancy reaches a size limit exactly: m packets of 65534 bytes (65536 with their
+		// prefix) under a limit of m*65536 - also for the limit that equals the 4 MiB cap
+		m := r.Pick(1, 2, 3, 32, 63, 64, 64)
+		pre := r.Intn(3) // the limit is set after this many writes
+		for i := 0; i < m; i++ {
+			if i == pre || (i == 0 && pre >= m) {
+				sc.Ops = append(sc.Ops, op{Kind: "ls", N: m * 65536})
+			}
+			sc.Ops = append(sc.Ops, op{Kind: "w", N: 65534})
+		}
+		sc.Ops = append(sc.Ops, op{Kind: "size"}, op{Kind: "w", N: 0}, op{Kind: "w", N: r.Pick(0, 1, 100)}, op{Kind: "cnt"},
+			op{Kind: "r", N: 65535}, op{Kind: "w", N: 65534}, op{Kind: "w", N: 0}, op{Kind: "size"})
+		for i := 0; i < 3; i++ {
+			sc.Ops = append(sc.Ops, op{Kind: "r", N: 65535})
+		}
+		return sc
+	}
 	n := r.Range(3, 70)
 	if tier == "thorough" && r.Bool(0.3) {
 		n = r.Range(70, 400)
